@@ -1,5 +1,5 @@
 (* Test-case dispatch for model R (run-time model). Opcodes 100-199. *)
-From AJ Require Import Common.Util Extract.Codec Run.RModel Run.RMon Run.RProps1 Run.RProps2 Run.RProps3 Run.RWin Run.RProps4 Run.RProps5.
+From AJ Require Import Common.Util Extract.Codec Run.RModel Run.RMon Run.RProps1 Run.RProps2 Run.RProps3 Run.RWin Run.RProps4 Run.RProps5 Run.RAdm.
 
 Definition rd_optN : reader (option N) := rd_opt rd_N.
 
@@ -88,5 +88,9 @@ Definition run_rcase (op : N) : reader (list N) :=
       ret (flat_map (fun m => [N.of_nat (fst m);
                                match mon (snd m) c init h 0 with None => 0%N | Some i => N.of_nat (S i) end])
                     monitors)
+  | 103%N => (* hypotheses of the progress property *)
+      c <- rd_cfg ;;
+      ret (en_bool (admissible c) ++
+           flat_map (fun n => [N.of_nat n; if never_ends c n then 1%N else 0%N]) (all_ids c))
   | _ => fun _ => None
   end.
